@@ -577,6 +577,11 @@ def random_cases(rng, n_c, n_p, nseg):
 
 
 def run(ctx):
+    # detector objects are independent of one another (a consequence of "the outputs are a function of the detector's own
+    # parameters and history"): solo trace = trace when a second object of the class is updated alternately (impl/zoo.py)
+    from impl import zoo as _zoo
+    for _f in _zoo.isolation_failures(ctx, ['CUSUM', 'PageHinkley']):
+        ctx.fail(signature={"clause": "detector-objects-independent"}, **_f)
     warnings.simplefilter("ignore")
     np.seterr(all="ignore")
     rng = np.random.default_rng(ctx.seed)
